@@ -31,13 +31,16 @@ def check(repo, tier="quick"):
     res.rule("C03.b", "picture parse codes follow the profile (and fragment setting) as vc2_data_tables.PROFILES allows; the slice list name follows the same profile")
     res.rule("C03.c", "picture numbers: the picture header / every fragment header of a picture carries the input picture's pic_num when given, and nothing else writes picture_number")
     res.rule("C03.d", "fragments: first fragment holds the transform parameters and no slices; every slice is appended exactly once, in raster order; a new fragment starts exactly when the previous one holds fragment_slice_count slices and carries the coordinates of its first slice")
-    res.rule("C03.e", "shared clauses re-evaluated: data-unit patterns (C19.e), version implications (C07.c), level-filtered sequence headers (C15.e)")
+    res.rule("C03.e", "shared clauses re-evaluated: data-unit patterns (C19.e), version implications (C07.c), level-filtered sequence headers (C15.e), lossless slice-size scaler fits the length field (C04.f)")
+    res.rule("C03.f", "scratch State dictionaries the encoder builds for the pseudocode helpers (slice_bytes, picture_dimensions, ...) bind every key to its own source: codec_features[k] under key k, width()/height() of the slice array under the _x/_y key, a same-named local under its own name")
 
     rule_a(repo, res)
     rule_b(repo, res)
     rule_c(repo, res)
     rule_d(repo, res)
     rule_e(repo, res)
+    rule_f(repo, res)
+    res.floor("C03.f", 4)
     res.floor("C03.a", 5)
     res.floor("C03.b", 4)
     res.floor("C03.c", 3)
@@ -326,7 +329,60 @@ def rule_e(repo, res):
     c07.rule_c(repo, sub, repo.mod(c07.AF))
     for o in sub.obs:
         res._add(Ob("C03.e", "%s/%s" % (o.rule, o.key), o.where, o.status, o.detail, o.by, o.path))
+    from . import c04
+
+    sub = Result("C04")
+    c04.rule_f(repo, sub)
+    for o in sub.obs:
+        res._add(Ob("C03.e", "%s/%s" % (o.rule, o.key), o.where, o.status, o.detail, o.by, o.path))
     sub = Result("C15")
     c16.level_filter_rule(repo, sub, "C15.e")
     for o in sub.obs:
         res._add(Ob("C03.e", "%s/%s" % (o.rule, o.key), o.where, o.status, o.detail, o.by, o.path))
+
+
+STATE_KEYS_XY = {"slices_x": "x", "slices_y": "y", "luma_width": "x", "luma_height": "y", "color_diff_width": "x", "color_diff_height": "y"}
+
+
+def _axis_of(e, fn, depth=0):
+    """'x' / 'y' when e is width(...)/height(...) of an array (or a local so defined); None otherwise"""
+    if isinstance(e, ast.Call) and dotted(e.func) in ("width", "height") and len(e.args) == 1:
+        return "x" if dotted(e.func) == "width" else "y"
+    if isinstance(e, ast.Name) and depth < 2:
+        ds = [a.value for a in ast.walk(fn) if isinstance(a, ast.Assign) and any(isinstance(t, ast.Name) and t.id == e.id for t in a.targets)]
+        ax = set(_axis_of(d, fn, depth + 1) for d in ds)
+        if len(ax) == 1:
+            return ax.pop()
+    return None
+
+
+def rule_f(repo, res):
+    n = 0
+    for name, m in sorted(repo.modules.items()):
+        rel = name.split("vc2_conformance.", 1)[-1]
+        if not (rel.startswith("encoder.") or rel == "codec_features" or rel.startswith("test_cases.")):
+            continue
+        for fn in [f for f in ast.walk(m.tree) if isinstance(f, ast.FunctionDef)]:
+            for c in ast.walk(fn):
+                if not (isinstance(c, ast.Call) and dotted(c.func) == "State" and c.keywords):
+                    continue
+                if m.enclosing_function(c) is not fn:
+                    continue
+                bad = []
+                for k in c.keywords:
+                    if k.arg is None:
+                        continue
+                    v = k.value
+                    src = None
+                    if isinstance(v, ast.Subscript) and const_str(v.slice) is not None and isinstance(v.value, ast.Name):
+                        src = const_str(v.slice)
+                        if src != k.arg:
+                            bad.append("%s=%s[%r]" % (k.arg, v.value.id, src))
+                    ax = _axis_of(v, fn)
+                    if ax is not None and k.arg in STATE_KEYS_XY and STATE_KEYS_XY[k.arg] != ax:
+                        bad.append("%s=%s (a %s extent under a%s key)" % (k.arg, short(v, 30), "horizontal" if ax == "x" else "vertical", " vertical" if ax == "x" else " horizontal"))
+                    if isinstance(v, ast.Name) and v.id in STATE_KEYS_XY and v.id != k.arg:
+                        bad.append("%s=%s" % (k.arg, v.id))
+                n += 1
+                res.check(not bad, "C03.f", "%s:State(%s)" % (fn.name, ",".join(k.arg or "**" for k in c.keywords)[:60]), "%s:%s" % (m.rel, fn.name), "scratch State built with mismatched sources: %s -- the pseudocode helper then computes for a different configuration than the one written to the stream" % "; ".join(bad), by="every key bound to its own source")
+    res.info["scratch_states"] = n
